@@ -130,6 +130,11 @@ void GlobalGraph::switchNodes(Graph::NodeId nodeA, Graph::NodeId nodeB)
 {
   Graph::NodeId father, son;
 
+  if (!directed_)
+    throw Exception("GlobalGraph::switchNodes : the graph is not directed");
+  nodeMustExist_(nodeA, "first node");
+  nodeMustExist_(nodeB, "second node");
+
   nodeStructureType::iterator nodeARow = nodeStructure_.find(nodeA);
   nodeStructureType::iterator nodeBRow = nodeStructure_.find(nodeB);
   nodeStructureType::iterator nodeSonRow, nodeFatherRow;
@@ -159,7 +164,12 @@ void GlobalGraph::switchNodes(Graph::NodeId nodeA, Graph::NodeId nodeB)
 
   // Backwards
   map<GlobalGraph::Node, GlobalGraph::Edge>::iterator foundBackwardsRelation = nodeSonRow->second.second.find(father);
+  if (foundBackwardsRelation == nodeSonRow->second.second.end())
+    throw Exception("GlobalGraph::switchNodes : no edge to switch " + TextTools::toString(son) + "<-" + TextTools::toString(father));
 
+  // the reversed relation must not overwrite an existing one
+  if (father != son && nodeSonRow->second.first.find(father) != nodeSonRow->second.first.end())
+    throw Exception("GlobalGraph::switchNodes : reciprocal relation between nodes " + TextTools::toString(nodeA) + " and " + TextTools::toString(nodeB));
 
   // Exchange
   nodeFatherRow->second.first.erase(foundForwardRelation);
